@@ -147,6 +147,13 @@ def direct_forms():
     for op in range(0x80, 0x90):
         F.append(('0f%02x' % op, b'', bytes([0x0F, op]), 32, 32))
         F.append(('66.0f%02x' % op, b'\x66', bytes([0x0F, op]), 16, 16))
+    # address-size prefix alone (nothing changes) and together with the operand-size prefix, in both orders (rel16)
+    for opc, nm in [(bytes([0xE8]), 'e8'), (bytes([0xE9]), 'e9')] + [(bytes([0x0F, op]), '0f%02x' % op) for op in (0x80, 0x84, 0x8F)]:
+        F.append(('67.' + nm, b'\x67', opc, 32, 32))
+        F.append(('66.67.' + nm, b'\x66\x67', opc, 16, 16))
+        F.append(('67.66.' + nm, b'\x67\x66', opc, 16, 16))
+    for op in (0xEB, 0x74, 0xE2):
+        F.append(('66.67.%02x' % op, b'\x66\x67', bytes([op]), 8, 16))
     for p in (0x2E, 0x3E):          # branch hints
         F.append(('%02x.74' % p, bytes([p]), b'\x74', 8, 32))
         F.append(('%02x.0f84' % p, bytes([p]), b'\x0f\x84', 32, 32))
